@@ -179,6 +179,7 @@ func runC03(c *explore.Ctx) {
 	}
 	largeMerges(c, check)
 	aliasMerges(c, check)
+	againMerges(c, check)
 }
 
 type sliceWriter struct{ b []byte }
